@@ -130,23 +130,23 @@ fn check_from(ck: &mut Checker, backend: u8, class: u8, data: &[u8], pre: usize,
         Ok(Some(g)) => g,
         Ok(None) => return,
         Err(_) => {
-            report(ck, code, class, data, place, format!("the scanner panicked (entered {} bytes into the buffer)", pre), exp);
-            if let Some(v) = ck.violations.last_mut() {
-                v.lane.cap += (pre as u32) << 8;
-            }
+            report_pre(ck, code, class, data, place, format!("the scanner panicked (entered {} bytes into the buffer)", pre), exp, pre);
             return;
         }
     };
     if got != exp {
-        report(ck, code, class, data, place, format!("entered {} bytes into the buffer, stopped at {}", pre, got), exp);
-        if let Some(v) = ck.violations.last_mut() {
-            v.lane.cap += (pre as u32) << 8;
-        }
+        report_pre(ck, code, class, data, place, format!("entered {} bytes into the buffer, stopped at {}", pre, got), exp, pre);
     }
 }
 
 fn report(ck: &mut Checker, backend: u8, class: u8, data: &[u8], place: Place, got: String, exp: usize) {
-    let lane = pseudo_lane(backend, class, place);
+    report_pre(ck, backend, class, data, place, got, exp, 0)
+}
+
+#[allow(clippy::too_many_arguments)]
+fn report_pre(ck: &mut Checker, backend: u8, class: u8, data: &[u8], place: Place, got: String, exp: usize, pre: usize) {
+    let mut lane = pseudo_lane(backend, class, place);
+    lane.cap += (pre as u32) << 8;
     ck.relation_tag = "scan";
     ck.violation(
         format!("{} scanner for the {} class {}, first out-of-class byte (or end) is at {}", BACKEND_NAMES[(backend & 7) as usize], CLASS_NAMES[class as usize], got, exp),
